@@ -219,3 +219,59 @@ fn f4_cleaning_actions_reentering_their_own_cleaner() {
         assert_eq!(1, other_runs.get());
     }
 }
+
+// ---- F5 (C10): register() nested inside register() on the same Cleaner (through the automatic collection that the
+// lazily allocated action map can trigger) ---------------------------------------------------------------------------
+
+struct RegistersInFinalizer {
+    me: RefCell<Option<Cc<RegistersInFinalizer>>>,
+    owner: Cc<Owner>,
+    ran: Rc<Cell<u32>>,
+    out: Rc<RefCell<Vec<Cleanable>>>,
+}
+
+unsafe impl Trace for RegistersInFinalizer {
+    fn trace(&self, ctx: &mut Context<'_>) {
+        self.me.trace(ctx);
+        self.owner.trace(ctx);
+    }
+}
+
+impl Finalize for RegistersInFinalizer {
+    fn finalize(&self) {
+        let ran = self.ran.clone();
+        let c = self.owner.cleaner.register(move || ran.set(ran.get() + 1));
+        self.out.borrow_mut().push(c);
+    }
+}
+
+#[test]
+fn f5_register_nested_in_register_through_an_automatic_collection() {
+    std::thread::spawn(|| {
+        let _ = config(|c| {
+            c.set_auto_collect(false);
+            c.set_buffered_objects_threshold(std::num::NonZeroUsize::new(1));
+        });
+        let owner = Cc::new(Owner { cleaner: Cleaner::new() });
+        let nested_runs = Rc::new(Cell::new(0u32));
+        let out = Rc::new(RefCell::new(Vec::new()));
+        // two pieces of buffered garbage whose finalizers register an action on `owner`'s Cleaner
+        for _ in 0..2 {
+            let g = Cc::new(RegistersInFinalizer { me: RefCell::new(None), owner: owner.clone(), ran: nested_runs.clone(), out: out.clone() });
+            *g.me.borrow_mut() = Some(g.clone());
+        }
+        let _ = config(|c| c.set_auto_collect(true));
+        let outer_runs = Rc::new(Cell::new(0u32));
+        let o = outer_runs.clone();
+        // the first register() allocates the action map with Cc::new, which starts the collection
+        let _outer = owner.cleaner.register(move || o.set(o.get() + 1));
+        assert_eq!(2, out.borrow().len(), "the finalizers did not run inside register()");
+        assert_eq!(0, nested_runs.get(), "an action registered from a finalizer ran although neither clean() was called nor the Cleaner dropped");
+        assert_eq!(0, outer_runs.get());
+        drop(owner);
+        collect_cycles();
+        assert_eq!((1, 2), (outer_runs.get(), nested_runs.get()));
+    })
+    .join()
+    .unwrap();
+}
